@@ -490,4 +490,33 @@ def handleE2E : Handler := fun s =>
       | some m => { corr := none, oracle := some false, cls := "panic", detail := toString (Sexp.list m) }
       | none => badInput "c10e2e: no result"
 
+/-! ### directed stream `c10big`: large mark lookups
+
+  The source (written down in harness/src/c10.rs `big_design`) has `attaching` glyphs that each carry the anchor `top`
+  (or `top_1`/`top_N` on one ligature) and one mark `acutecomb` with `_top`, no categories: every attaching glyph ×
+  `acutecomb` is a source pair.  The oracle is clause (a) of the property on the compiled font: every one of them is
+  covered for that mark. -/
+def handleBig : Handler := fun s =>
+  let r : Option Verdict := do
+    let case_ ← s.field? "case"
+    let attaching ← (← s.field1? "attaching").asNat?
+    let tags := match case_ with
+      | [.atom k, n, v] => [k, s!"n{n}", if v == .atom "true" then "variable" else "static"]
+      | _ => []
+    match s.field? "result" with
+    | some [.atom "ok"] =>
+      let hasGpos := (← s.field1? "has_gpos") == .atom "true"
+      let covered ← (← s.field1? "covered").asNat?
+      let ok := hasGpos && covered == attaching
+      some { corr := none, oracle := some ok, nontrivial := attaching ≥ 1000, tags,
+             cls := if ok then "" else if !hasGpos then "gpos-table-dropped" else "pair-not-covered",
+             detail := if ok then "" else s!"{attaching} source pairs (x:top <- acutecomb:_top), {covered} covered; GPOS present: {hasGpos}" }
+    | some (.atom "err" :: msg) =>
+      some { corr := none, oracle := some false, cls := "valid-source-rejected", tags,
+             detail := (msg.head?.bind Sexp.asString?).getD "" }
+    | _ => none
+  match s.field? "panic" with
+  | some m => { corr := none, oracle := some false, cls := "panic", detail := toString (Sexp.list m) }
+  | none => r.getD (badInput "c10big: cannot parse case")
+
 end Fontc.Driver.C10
